@@ -4,7 +4,7 @@
 #   tools/avt_run.sh [tier=quick] [seed=1]
 # 1. builds the phys harness and the extracted runner (same functions the driver uses),
 # 2. generates the C13 case set with the existing harness (vphys gen C13 <tier> <seed> <dir>) and adds the
-#    `av` lines of corpus/C13 and corpus/C09,
+#    `av` lines of corpus/C13, corpus/C09 and corpus/C09/avt.case.off (rename to avt.case once C09 has model_units),
 # 3. observes every `av` line on the real implementation (vphys obs) and on the extracted res-monad model,
 # 4. diffs.  Exit 0 and "avt: N cases, 0 differences" when they agree on every line; exit 1 otherwise
 #    (a `panic` printed by the model on a case the implementation survives is a difference).
@@ -36,7 +36,7 @@ MODEL=$(sed -n 2p "$OUT/paths")
 mkdir -p "$OUT/gen"
 "$VPHYS" gen C13 "$TIER" "$SEED" "$OUT/gen" > "$OUT/gen.log" 2>&1 || { cat "$OUT/gen.log"; echo "avt: case generation failed"; exit 2; }
 : > "$OUT/av.cases"
-for f in "$ROOT"/corpus/C13/*.case "$ROOT"/corpus/C09/*.case; do
+for f in "$ROOT"/corpus/C13/*.case "$ROOT"/corpus/C09/*.case "$ROOT"/corpus/C09/avt.case.off; do
   [ -f "$f" ] && grep -h '^av ' "$f" >> "$OUT/av.cases" || true
 done
 grep '^av ' "$OUT/gen/cases.txt" >> "$OUT/av.cases"
